@@ -69,7 +69,12 @@ def run(tier, seed, replay):
     for v in nat["violations"]:
         pass
     seen = set()
+    import re as _re
+    K9 = _re.compile(r"^0[xX][0-9a-fA-F]*[eE][A-Za-z0-9]+[+-]")     # hex constant ending in e/E + suffix + sign
     for v in nat["violations"]:
+        if K9.match(v["text"]) and any(k["id"] == "K9" for k in chk.known):
+            chk.known_finding("K9", True)
+            continue
         key = v["what"].split("'")[1] if "'" in v["what"] else v["what"]
         low = key.lower()
         if low.startswith("0x") and "p" in low and ("." in low):
